@@ -280,4 +280,152 @@ theorem decodeSigner_spec (dk : Bytes → Option (Key × Bytes)) (bs : Bytes) (s
               · intro hb; simp only [hb] at hgs; cases hgs; rfl
               · intro hb; simp only [hb] at hrs; cases hrs; rfl
 
+/-! ### Encoder / decoder round trip -/
+
+theorem beVal_foldl (bs : Bytes) (a : Nat) :
+    bs.foldl (fun a b => a * 256 + b.toNat) a = a * 256 ^ bs.length + beVal bs := by
+  induction bs generalizing a with
+  | nil => simp [beVal]
+  | cons b bs ih =>
+    simp only [List.foldl_cons, beVal, List.length_cons]
+    rw [ih, ih (0 * 256 + b.toNat)]
+    simp [Nat.pow_succ, Nat.add_mul, Nat.mul_assoc, Nat.mul_comm 256, Nat.add_assoc]
+
+theorem beVal_cons (b : UInt8) (bs : Bytes) : beVal (b :: bs) = b.toNat * 256 ^ bs.length + beVal bs := by
+  simp only [beVal, List.foldl_cons]
+  rw [beVal_foldl]; simp [beVal]
+
+theorem beBytes_length (n v : Nat) : (beBytes n v).length = n := by
+  induction n with
+  | zero => rfl
+  | succ n ih => simp [beBytes, ih]
+
+theorem beVal_beBytes (n v : Nat) : beVal (beBytes n v) = v % 256 ^ n := by
+  induction n with
+  | zero => simp [beBytes, beVal, Nat.mod_one]
+  | succ n ih =>
+    simp only [beBytes, beVal_cons, beBytes_length, ih]
+    have h1 : (UInt8.ofNat (v / 256 ^ n % 256)).toNat = v / 256 ^ n % 256 := by
+      simp [UInt8.toNat_ofNat']
+    rw [h1, Nat.pow_succ, Nat.mod_mul, Nat.mul_comm]
+    omega
+
+theorem readHash_beBytes (h : Hash) (r : Bytes) (hh : h < 2 ^ 160) :
+    readHash (beBytes 20 h ++ r) = some (h, r) := by
+  have hl := beBytes_length 20 h
+  have hv : beVal (beBytes 20 h) = h := by
+    rw [beVal_beBytes]; apply Nat.mod_eq_of_lt
+    have : (256 : Nat) ^ 20 = 2 ^ 160 := by decide
+    omega
+  simp [readHash, Wire.takeN, hl, hv]
+
+theorem readVarUint_small (n : Nat) (r : Bytes) (hn : n ≤ 16) :
+    Wire.readVarUint (Wire.putVarUint n ++ r) = some (n, r) := by
+  have h1 : n < 0xfd := by omega
+  have hb : (UInt8.ofNat n).toNat = n := by simp [UInt8.toNat_ofNat']; omega
+  have n1 : UInt8.ofNat n ≠ 0xfd := by intro e; have := congrArg UInt8.toNat e; rw [hb] at this; simp at this; omega
+  have n2 : UInt8.ofNat n ≠ 0xfe := by intro e; have := congrArg UInt8.toNat e; rw [hb] at this; simp at this; omega
+  have n3 : UInt8.ofNat n ≠ 0xff := by intro e; have := congrArg UInt8.toNat e; rw [hb] at this; simp at this; omega
+  simp [Wire.putVarUint, h1, Wire.readVarUint, n1, n2, n3, hb]
+
+theorem decodeN_encode (dec : Bytes → Option (Cond × Bytes)) (enc : Cond → Bytes) :
+    ∀ (cs : List Cond) (r : Bytes), (∀ c ∈ cs, ∀ r', dec (enc c ++ r') = some (c, r')) →
+      decodeN dec cs.length ((cs.map enc).flatten ++ r) = some (cs, r)
+  | [], r, _ => by simp [decodeN]
+  | c :: cs, r, h => by
+      have hc := h c (by simp) ((cs.map enc).flatten ++ r)
+      have ih := decodeN_encode dec enc cs r (fun x hx => h x (by simp [hx]))
+      simp only [List.length_cons, decodeN, List.map_cons, List.flatten_cons, List.append_assoc, hc, ih]
+
+theorem encodeConds_eq (ek : Key → Bytes) (cs : List Cond) :
+    encodeConds ek cs = (cs.map (encodeCond ek)).flatten := by
+  induction cs with
+  | nil => simp [encodeConds]
+  | cons c cs ih => simp [encodeConds, ih]
+
+theorem hashesOkList_iff (cs : List Cond) : hashesOkList cs ↔ ∀ c ∈ cs, c.hashesOk := by
+  induction cs with
+  | nil => simp [hashesOkList]
+  | cons c cs ih => simp [hashesOkList, ih]
+
+theorem readArray_encode (dec : Bytes → Option (Cond × Bytes)) (ek : Key → Bytes) (cs : List Cond) (r : Bytes)
+    (hl0 : cs.length ≠ 0) (hl : cs.length ≤ maxSubitems)
+    (h : ∀ c ∈ cs, ∀ r', dec (encodeCond ek c ++ r') = some (c, r')) :
+    readArrayOfConditions dec (Wire.putVarUint cs.length ++ (encodeConds ek cs ++ r)) = some (cs, r) := by
+  unfold readArrayOfConditions
+  rw [readVarUint_small cs.length _ (by simpa [maxSubitems] using hl)]
+  have h0 : (cs.length == 0) = false := by simpa using hl0
+  have h1 : ¬ cs.length > maxSubitems := by omega
+  simp only [h0, h1, if_false, Bool.false_eq_true]
+  rw [encodeConds_eq]
+  exact decodeN_encode dec (encodeCond ek) cs r h
+
+/-- Every tree within the permitted nesting and width is decoded back from its encoding (so the bound of
+`nesting_bounded` is exactly the set of trees the wire format can carry). -/
+theorem decode_encode (dk : Bytes → Option (Key × Bytes)) (ek : Key → Bytes)
+    (hk : ∀ k r, dk (ek k ++ r) = some (k, r)) :
+    ∀ (c : Cond) (d : Nat) (r : Bytes), c.depth ≤ d → c.widthOk = true → c.hashesOk →
+      decodeCond dk d (encodeCond ek c ++ r) = some (c, r)
+  | c, 0, r, hd, _, _ => by have := depth_pos c; omega
+  | .boolean b, d+1, r, _, _, _ => by
+      cases b <;> simp [encodeCond, decodeCond, tBoolean]
+  | .not c, d+1, r, hd, hw, hh => by
+      simp only [Cond.depth] at hd
+      simp only [Cond.widthOk] at hw
+      simp only [Cond.hashesOk] at hh
+      have ih := decode_encode dk ek hk c d r (by omega) hw hh
+      simp [encodeCond, decodeCond, tNot, tBoolean, ih]
+  | .and cs, d+1, r, hd, hw, hh => by
+      simp only [Cond.depth] at hd
+      simp only [Cond.widthOk, Bool.and_eq_true] at hw
+      simp only [Cond.hashesOk] at hh
+      have hdl := (depthList_le_iff cs d).mp (by omega)
+      have hwl := (widthOkList_iff cs).mp hw.2
+      have hhl := (hashesOkList_iff cs).mp hh
+      have ih : ∀ c ∈ cs, ∀ r', decodeCond dk d (encodeCond ek c ++ r') = some (c, r') :=
+        fun c hc r' => decode_encode dk ek hk c d r' (hdl c hc) (hwl c hc) (hhl c hc)
+      have := readArray_encode (decodeCond dk d) ek cs r (by simpa using hw.1.1) (by simpa using hw.1.2) ih
+      simp [encodeCond, decodeCond, tAnd, tNot, tBoolean, this]
+  | .or cs, d+1, r, hd, hw, hh => by
+      simp only [Cond.depth] at hd
+      simp only [Cond.widthOk, Bool.and_eq_true] at hw
+      simp only [Cond.hashesOk] at hh
+      have hdl := (depthList_le_iff cs d).mp (by omega)
+      have hwl := (widthOkList_iff cs).mp hw.2
+      have hhl := (hashesOkList_iff cs).mp hh
+      have ih : ∀ c ∈ cs, ∀ r', decodeCond dk d (encodeCond ek c ++ r') = some (c, r') :=
+        fun c hc r' => decode_encode dk ek hk c d r' (hdl c hc) (hwl c hc) (hhl c hc)
+      have := readArray_encode (decodeCond dk d) ek cs r (by simpa using hw.1.1) (by simpa using hw.1.2) ih
+      simp [encodeCond, decodeCond, tOr, tAnd, tNot, tBoolean, this]
+  | .scriptHash h, d+1, r, _, _, hh => by
+      simp only [Cond.hashesOk] at hh
+      simp [encodeCond, decodeCond, tScriptHash, tOr, tAnd, tNot, tBoolean, readHash_beBytes h r hh]
+  | .group k, d+1, r, _, _, _ => by
+      simp [encodeCond, decodeCond, tGroup, tScriptHash, tOr, tAnd, tNot, tBoolean, hk k r]
+  | .calledByEntry, d+1, r, _, _, _ => by
+      simp [encodeCond, decodeCond, tCalledByEntry, tGroup, tScriptHash, tOr, tAnd, tNot, tBoolean]
+  | .calledByContract h, d+1, r, _, _, hh => by
+      simp only [Cond.hashesOk] at hh
+      simp [encodeCond, decodeCond, tCalledByContract, tCalledByEntry, tGroup, tScriptHash, tOr, tAnd, tNot, tBoolean,
+        readHash_beBytes h r hh]
+  | .calledByGroup k, d+1, r, _, _, _ => by
+      simp [encodeCond, decodeCond, tCalledByGroup, tCalledByContract, tCalledByEntry, tGroup, tScriptHash, tOr, tAnd,
+        tNot, tBoolean, hk k r]
+
+
+/-- a total toy key codec (unary), only used to show that the hypotheses of `decoder_complete` can be met. -/
+def ekU (k : Key) : Bytes := List.replicate k 1 ++ [0]
+def dkU : Bytes → Option (Key × Bytes)
+  | [] => none
+  | b :: r => if b = 0 then some (0, r) else match dkU r with
+    | none => none
+    | some (k, r') => some (k + 1, r')
+
+theorem dkU_ekU (k : Key) (r : Bytes) : dkU (ekU k ++ r) = some (k, r) := by
+  induction k with
+  | zero => simp [ekU, dkU]
+  | succ k ih =>
+    simp only [ekU, List.replicate_succ, List.cons_append, dkU, List.append_assoc, List.nil_append] at ih ⊢
+    simp [ih]
+
 end NeoModel.Witness
